@@ -3,6 +3,8 @@
 //   evalcert <dag> <box> => <node domains, comma separated>       every node domain encloses its operator applied to its arguments' domains
 #include "common.h"
 #include "expr_io.h"
+#include <sys/wait.h>
+#include <unistd.h>
 using namespace ibex; using namespace vh; using namespace std;
 
 static long emitted = 0;
@@ -95,6 +97,21 @@ int main(int argc, char** argv) {
   long n = argc > 3 ? atol(argv[3]) : 300;
   Rng r(seed * 32452843 + 3);
   if (wl == "c02") {
+    // expression forms that the numeric layer must at least survive: evaluated in a forked child (a crash is a result)
+    {
+      fflush(stdout);
+      pid_t pid = fork();
+      if (pid == 0) {
+        const ExprSymbol& x = ExprSymbol::new_("x", Dim::col_vec(2)); const ExprSymbol& w = ExprSymbol::new_("w", Dim::row_vec(2));
+        Function f(x, w, x * w);                       // outer product: a 2x2 matrix
+        IntervalVector box(4, Interval(1, 2));
+        IntervalMatrix m = f.eval_matrix(box);
+        _exit((m.nb_rows() == 2 && m.nb_cols() == 2 && m[1][1] == Interval(1, 4)) ? 0 : 3);
+      }
+      int st = 0; waitpid(pid, &st, 0);
+      if (WIFSIGNALED(st)) EMIT("evalfork outerproduct => SIGNAL%d\n", WTERMSIG(st));
+      else EMIT("evalfork outerproduct => EXIT%d\n", WEXITSTATUS(st));
+    }
     for (long it = 0; it < n; it++) {
       GenCfg cfg; cfg.max_depth = r.range(1, 4); cfg.thick_consts = false; cfg.allow_vec = r.coin(70); cfg.allow_apply = r.coin(50); cfg.allow_sqrt = r.coin(40);
       int rows = 1, cols = 1;
